@@ -67,6 +67,7 @@ SeenOf(ww, e) ==
   \cup (IF Len(e.enc.supplied) = 0 THEN {"supplied-none"} ELSE {})
   \cup (IF ~EdgeNumbered(e) THEN {"edge-numbering-free"} ELSE {})
   \cup (IF "index_dtype" \in DOMAIN e.enc THEN {"narrow-index-type"} ELSE {})
+  \cup (IF "resave" \in DOMAIN e.enc THEN {"saved-by-emsarray"} ELSE {})
   \cup (IF \E f \in 1..Len(M0.faces) : Len(M0.faces[f]) = 3 THEN {"triangle"} ELSE {})
   \cup (IF \E f \in 1..Len(M0.faces) : Len(M0.faces[f]) = 4 THEN {"quad"} ELSE {})
   \cup (IF \E f \in 1..Len(M0.faces) : Len(M0.faces[f]) > 4 THEN {"big-face"} ELSE {})
